@@ -15,6 +15,7 @@ import (
 	"gverif/engine/goproto"
 	"gverif/engine/graphinv"
 	"gverif/engine/loopidx"
+	"gverif/engine/matargs"
 	"gverif/engine/modset"
 	"gverif/engine/okflow"
 	"gverif/engine/overlap"
@@ -146,6 +147,11 @@ func init() {
 				for _, c := range []core.Config{{Tags: "safe"}, {GOARCH: "arm64"}, {GOARCH: "386"}} {
 					res.Merge(stride.Run(c, core.Pkgs(blasPkgs...)))
 				}
+				rg := twin.RunRegen()
+				rg.Floor("generator_scripts_run", 3)
+				rg.Floor("regenerated_files_compared", 15)
+				res.Merge(rg)
+				res.Merge(modset.Run(core.Config{Tags: "safe"}).Only("MODSET.blas"))
 			}
 		},
 	}
@@ -210,6 +216,15 @@ func init() {
 			am.Floor("byte_scalings", 40)
 			res.Merge(am)
 
+			ma := matargs.Run(def)
+			ma.Floor("methods_with_checks", 140)
+			ma.Floor("shape_checks", 240)
+			res.Merge(ma)
+			if tier == "thorough" {
+				res.Merge(matargs.Run(core.Config{Tags: "bounds"}))
+				res.Merge(args.Run(core.Config{Tags: "noasm"}, core.Pkgs("./blas/gonum"), blasArgs))
+				res.Merge(args.Run(core.Config{GOARCH: "386"}, core.Pkgs("./lapack/gonum"), lapackArgs))
+			}
 		},
 	}
 	properties["C04"] = &property{
@@ -530,6 +545,10 @@ func dump(argv []string) {
 		res = modset.Run(core.Config{Tags: "noasm"})
 	case "asm":
 		res = asmx.Run()
+	case "matargs":
+		res = matargs.Run(def)
+	case "regen":
+		res = twin.RunRegen()
 	case "twin":
 		res = twin.Run(twin.Which{Generated: true, Bounds: true, ReuseAs: true, R3: true, Siblings: []string{"graph/iterator"}})
 	case "args":
